@@ -212,6 +212,12 @@ impl<'h> FindMatchesImpl<'h> {
         new_position
     }
 
+    /// Advance to a position given relative to the start of the whole input, as carried by the
+    /// matches the iterator yields, also after `with_offset` or `set_offset`.
+    pub(crate) fn advance_to_absolute(&mut self, position: usize) -> usize {
+        self.advance_to(position.saturating_sub(self.offset)) + self.offset
+    }
+
     /// Retrieve the total offset of the char indices iterator in bytes.
     pub(crate) fn offset(&self) -> usize {
         self.last_position + self.offset
